@@ -26,9 +26,9 @@ type c02Ev struct {
 }
 
 type c02Case struct {
-	Stack  StackCfg `json:"stack"`
-	Evs    []c02Ev  `json:"evs"`
-	Yields []uint8  `json:"yields,omitempty"`
+	Stack  StackCfg  `json:"stack"`
+	Evs    []c02Ev   `json:"evs"`
+	Yields yieldList `json:"yields,omitempty"`
 }
 
 func genStackCfg(t *rapid.T, kinds []string, coop bool) StackCfg {
@@ -88,7 +88,7 @@ func genC02(kinds []string, coop bool) func(t *rapid.T) c02Case {
 		c := c02Case{Stack: genStackCfg(t, kinds, coop)}
 		c.Evs = rapid.SliceOfN(genC02Ev(0), 1, 40).Draw(t, "evs")
 		if coop {
-			c.Yields = rapid.SliceOfN(rapid.SampledFrom([]uint8{0, 0, 1, 1, 2, 3}), 0, 40).Draw(t, "yields")
+			c.Yields = yieldList(rapid.SliceOfN(rapid.SampledFrom([]uint8{0, 0, 1, 1, 2, 3}), 0, 40).Draw(t, "yields"))
 		}
 		return c
 	}
